@@ -19,7 +19,8 @@ Cubical == \A m \in 1..N0 : ShapeC[m] = ShapeC[1]
 \* receivers
 
 Odd  == {k \in 1..NC : k % 2 = 1}
-SpPatterns == {{}, {NC}, {1}, Odd, 1..NC} \cup (IF NC >= 4 THEN {{2, 3, NC - 1}} ELSE {})
+\* (the pattern {3, 4, NC - 1} puts two entries into one fibre of the first mode and leaves most of a long mode empty)
+SpPatterns == {{}, {NC}, {1}, Odd, 1..NC} \cup (IF NC >= 4 THEN {{2, 3, NC - 1}} ELSE {}) \cup (IF NC >= 6 THEN {{3, 4, NC - 1}} ELSE {})
 SparseOf(cells) ==
   LET S == ToSparse(MaskedLabelD(ShapeC, cells))
       n == Len(S.subs)
